@@ -4,6 +4,7 @@
   its list.
 -/
 import MiniMoka.Lemmas.UnsyncTrace
+import MiniMoka.Lemmas.SketchLaws
 
 namespace MiniMoka
 namespace Props
@@ -15,23 +16,23 @@ included) and every history of public API calls, no observation of the unsync mo
 fault: every `expect`, `unwrap`, `unreachable!`, "not a member" panic, overflow-checked
 counter operation and node dereference of `unsync::Cache` is shown unreachable.
 `SmallSketch`: sketch table below 2^28 slots (documented limit). -/
-theorem C08_unsync_no_fault {P : Sketch → Prop} (L : SketchLaws P) (p : Params) (hq : NoQuirks p)
+theorem C08_unsync_no_fault (p : Params) (hq : NoQuirks p)
     (hsm : SmallSketch p) (h : List Op) :
     Spec.noPanic (Unsync.trace p h) = true := by
   unfold Spec.noPanic Unsync.trace
-  apply run_all L hq hsm _ _ h {} (init_inv L p)
+  apply run_all sketchLaws hq hsm _ _ h {} (init_inv sketchLaws p)
   intro s op hi
-  rw [step_obs L hq hsm hi op]
+  rw [step_obs sketchLaws hq hsm hi op]
   cases op <;> rfl
 
 /-- The structural invariant behind it, for every reachable state: every map entry owns
 exactly one live node of the access-order list (and of the write-order list when ttl is
 configured), every node is owned by the map entry of its key, node ids are pairwise
 distinct (no node is in a list twice, none is freed while referenced). -/
-theorem C08_unsync_structure {P : Sketch → Prop} (L : SketchLaws P) (p : Params) (hq : NoQuirks p)
+theorem C08_unsync_structure (p : Params) (hq : NoQuirks p)
     (hsm : SmallSketch p) (h : List Op) :
     Struct p (runState p {} h) :=
-  (reachable_inv L hq hsm h).inv.struct
+  (reachable_inv sketchLaws hq hsm h).inv.struct
 
 /-- Non-vacuity: fault tracking is live. On a state that violates the invariant (an entry
 pointing at a node that is in no list) the model does raise the "not a member" panic, and
